@@ -3,7 +3,7 @@ deprecated *_old streaming helpers of exetera/core/operations.py) vs coq/Model/S
 import itertools, functools
 
 PROP, NUM = 'C19', 19
-PROPS_FILES = ['Props/C19.v', 'Props/C19_typed.v']
+PROPS_FILES = ['Props/C19.v', 'Props/C19_typed.v', 'Props/C19_flags.v']
 MODES = ['jit', 'nojit']
 MODES_THOROUGH = ['jit', 'nojit', 'bounds']
 LEVEL = 'proof'
@@ -577,6 +577,15 @@ def _enc_payloads(ps):
     return out
 
 
+_FWIRE = {'b': 0, 'nb': 10, 'all': 10, 'i': 20, 'ni': 30, 'u8': 30, 'a0': 40}
+
+
+def _wflags(case):
+    """the hints on the wire: truth value + the code of the type form (Model/FlagForm.v: flag_of_wire)"""
+    ff = case.get('ff') or ['b', 'b']
+    return [_FWIRE[ff[0]] + (1 if case['lu'] else 0), _FWIRE[ff[1]] + (1 if case['ru'] else 0)]
+
+
 def to_val(case):
     op = case['op']
     if op in ('klru', 'klbu'):
@@ -600,8 +609,8 @@ def to_val(case):
         cs = case.get('cs')
         return [12, (max(len(case['L']), len(case['R'])) + 2) if cs is None else cs, case['L'], case['R'],
                 [[DTC[d], list(c)] for d, c in zip(sdt, case['srcs'])], FORMS[case['form']],
-                [DTC[d] for d in kdt] if has_sinks else [], sinks0, MAPKS[case['mapk']], case['lu'], case['ru'],
-                1 if case.get('h5') else 0]
+                [DTC[d] for d in kdt] if has_sinks else [], sinks0, MAPKS[case['mapk']]] + _wflags(case) + \
+               [1 if case.get('h5') else 0]
     if op == 'oml':
         n = len(case['L'])
         sinks0 = [[case.get('fill', 0)] * n for _ in case['srcs']] if case['form'] == 'as' else []
@@ -609,14 +618,13 @@ def to_val(case):
         # production default 1 << 20: the model is run with a chunk size just beyond both inputs (one chunk per side,
         # as with any larger size; a unary million-element buffer per case would only cost time)
         return [6, case.get('ver', VER), (max(len(case['L']), len(case['R'])) + 2) if cs is None else cs, case['L'], case['R'], case['srcs'],
-                FORMS[case['form']], sinks0, MAPKS[case['mapk']], case['lu'], case['ru']]
+                FORMS[case['form']], sinks0, MAPKS[case['mapk']]] + _wflags(case)
     if op == 'omi':
         n = case['n']
         f = case.get('fill', 0)
         ls0 = [[f] * n for _ in case['lsrcs']] if case['form'] == 'as' else []
         rs0 = [[f] * n for _ in case['rsrcs']] if case['form'] == 'as' else []
-        return [7, case['L'], case['R'], case['lsrcs'], case['rsrcs'], FORMS[case['form']], ls0, rs0,
-                case['lu'], case['ru']]
+        return [7, case['L'], case['R'], case['lsrcs'], case['rsrcs'], FORMS[case['form']], ls0, rs0] + _wflags(case)
     if op in ('ml', 'mr', 'mi'):
         return [8, {'ml': 0, 'mr': 1, 'mi': 2}[op], case['L'], case['R'],
                 _enc_payloads(case.get('lp', [])), _enc_payloads(case.get('rp', []))]
